@@ -1,65 +1,47 @@
 /-
-  Helper lemmas for C18: what the final name table says about every string fvar / STAT refer to.
-  Core Lean only. Hypotheses are spelled out; FontcProps/C18.lean names them.
+  Helper lemmas for C18: what the final name table says about every string fvar / STAT refer to
+  (model of the code after the three C18 fixes). Core Lean only.
 -/
 import FontcProofs.NamesAlloc
 
 namespace Fontc.Names
 
-/-- the bound on allocated ids used by `SourceIdsClear` -/
-def allocTop (x : Input) : Nat := 255 + x.labels.length + 2 * x.insts.length
-
-theorem clear_of_mem {x : Input}
-    (h : ∀ k v, (k, v) ∈ x.names → k.id ≤ 255 ∨ 256 + x.labels.length + 2 * x.insts.length ≤ k.id) :
-    Clear x.names (allocTop x) := by
-  intro k v hk
-  rcases h k v (mem_of_alookup hk) with h | h
-  · exact Or.inl h
-  · right; unfold allocTop; omega
-
-theorem allocState_inv {x : Input} (order : List NameKey) (hc : Clear x.names (allocTop x)) :
-    Inv x.names (allocState order x) ∧ (allocState order x).gen ≤ allocTop x := by
-  rw [allocState_eq]
-  apply inv_foldl_register hc _ _ (inv_init order x.names)
-  have := requests_length order x
-  simp only [allocTop]; omega
-
 /-- every entry of the final reusable map is what the final table says under its key -/
-theorem alloc_lookup_of_mem {x : Input} (order : List NameKey) (hc : Clear x.names (allocTop x))
+theorem alloc_lookup_of_mem {x : Input} (order : List NameKey)
     {s : Str} {k : NameKey} (h : (s, k) ∈ (allocState order x).reusable) : alookup k (alloc order x) = some s :=
-  alookup_extend_mem (allocState_inv order hc).1.inj h
+  alookup_extend_mem (allocState_inv order x).inj h
 
 /-- a registered string has a record with a font-specific id -/
-theorem alloc_of_request {x : Input} (order : List NameKey) (hc : Clear x.names (allocTop x))
+theorem alloc_of_request {x : Input} (order : List NameKey)
     {s : Str} (h : s ∈ requests order x) : ∃ k, (k, s) ∈ alloc order x ∧ 255 < k.id := by
-  have hs := alookup_foldl_register_mem (requests order x) ⟨initReusable order x.names, 255⟩ h
+  have hs := alookup_foldl_register_mem (requests order x) ⟨initReusable order x.names, maxId x.names⟩ h
   rw [← allocState_eq] at hs
   cases hk : alookup s (allocState order x).reusable with
   | none => simp [hk] at hs
   | some k =>
     have hm := mem_of_alookup hk
-    exact ⟨k, mem_of_alookup (alloc_lookup_of_mem order hc hm), allocState_idGt order x _ hm⟩
+    exact ⟨k, mem_of_alookup (alloc_lookup_of_mem order hm), allocState_idGt order x _ hm⟩
 
 /-- source records survive the allocation -/
-theorem alloc_source_survives {x : Input} (order : List NameKey) (hc : Clear x.names (allocTop x))
+theorem alloc_source_survives {x : Input} (order : List NameKey)
     {k : NameKey} {v : Str} (h : alookup k x.names = some v) : alookup k (alloc order x) = some v := by
   by_cases hex : ∃ p ∈ (allocState order x).reusable, p.2 = k
   · obtain ⟨p, hp, hpk⟩ := hex
-    obtain ⟨hinv, hgen⟩ := allocState_inv order hc
-    rcases hinv.kind p hp with hsrc | ⟨_, hfresh⟩
+    have hinv := allocState_inv order x
+    rcases hinv.kind p hp with hsrc | ⟨_, hfresh, _⟩
     · rw [hpk, h] at hsrc
       have : p = (v, k) := by
         cases p; simp at hsrc hpk; simp [hsrc, hpk]
       rw [this] at hp
-      exact alloc_lookup_of_mem order hc hp
-    · have hid := hinv.idGt p hp
-      rw [hpk] at hfresh hid
-      rcases hc k v h with h' | h' <;> omega
+      exact alloc_lookup_of_mem order hp
+    · rw [hpk] at hfresh
+      have := le_maxId (mem_of_alookup h)
+      simp at this; omega
   · have : ∀ p ∈ (allocState order x).reusable, p.2 ≠ k := fun p hp e => hex ⟨p, hp, e⟩
     unfold alloc
     rw [alookup_extend_notin this]; exact h
 
-/-- records with a reserved id are exactly the source's (no hypothesis needed) -/
+/-- records with a reserved id are exactly the source's -/
 theorem alloc_reserved_from_source {x : Input} (order : List NameKey) {k : NameKey} {s : Str}
     (h : (k, s) ∈ alloc order x) (hid : k.id ≤ 255) : (k, s) ∈ x.names := by
   rcases mem_extend h with h | h
@@ -75,67 +57,78 @@ theorem alloc_reserved_lookup {x : Input} (order : List NameKey) {k : NameKey} (
   have := allocState_idGt order x p hp
   rw [e] at this; omega
 
+/-- the second hash order (`reusable_names.into_iter()` in the final `extend`) does not matter: inserting the entries
+    in any other order gives the same map -/
+theorem extend_perm_lookup {t : Table} {r r' : List (Str × NameKey)}
+    (hinj : ∀ p ∈ r, ∀ q ∈ r, p.2 = q.2 → p.1 = q.1) (hp : r'.Perm r) (k : NameKey) :
+    alookup k (extend t r') = alookup k (extend t r) := by
+  have hinj' : ∀ p ∈ r', ∀ q ∈ r', p.2 = q.2 → p.1 = q.1 :=
+    fun p hp' q hq' => hinj p (hp.mem_iff.mp hp') q (hp.mem_iff.mp hq')
+  by_cases hex : ∃ p ∈ r, p.2 = k
+  · obtain ⟨p, hpr, hpk⟩ := hex
+    have h1 : (p.1, k) ∈ r := by rw [← hpk]; exact hpr
+    rw [alookup_extend_mem hinj h1, alookup_extend_mem hinj' (hp.mem_iff.mpr h1)]
+  · have h1 : ∀ p ∈ r, p.2 ≠ k := fun p hp' e => hex ⟨p, hp', e⟩
+    have h2 : ∀ p ∈ r', p.2 ≠ k := fun p hp' => h1 p (hp.mem_iff.mp hp')
+    rw [alookup_extend_notin h1, alookup_extend_notin h2]
+
 /-! ### what fvar / STAT look up -/
 
-theorem exist_label {x : Input} (order : List NameKey) (hc : Clear x.names (allocTop x)) {l : Str} (hl : l ∈ x.labels) :
+theorem exist_label {x : Input} (order : List NameKey) {l : Str} (hl : l ∈ x.labels) :
     ∃ id k, reusableNameId (alloc order x) l false = some id ∧ statAxisId (alloc order x) l = some id ∧
       (k, l) ∈ alloc order x ∧ k.id = id ∧ 256 ≤ id := by
-  obtain ⟨k, hk, hid⟩ := alloc_of_request order hc (mem_requests_label (order := order) hl)
-  obtain ⟨id, k', h1, h2, h3⟩ := reusableNameId_of_mem (allow := false) hk (by simp; omega)
+  obtain ⟨k, hk, hid⟩ := alloc_of_request order (mem_requests_label (order := order) hl)
+  obtain ⟨id, k', h1, h2, h3⟩ := reusableNameId_of_mem (allow := false) hk (by omega)
   refine ⟨id, k', h1, by rw [statAxisId_eq]; exact h1, h2, h3, ?_⟩
-  rcases (reusableNameId_some h1).2 with h | h
-  · cases h
+  rcases (reusableNameId_some h1).2 with h | ⟨h, _⟩
   · exact h
+  · cases h
 
-theorem exist_ps {x : Input} (order : List NameKey) (hc : Clear x.names (allocTop x)) {ni : Inst} {p : Str}
+theorem exist_ps {x : Input} (order : List NameKey) {ni : Inst} {p : Str}
     (hni : ni ∈ effInsts x) (hp : ni.ps = some p) :
     ∃ id k, reusableNameId (alloc order x) p false = some id ∧ (k, p) ∈ alloc order x ∧ k.id = id ∧ 256 ≤ id := by
-  obtain ⟨k, hk, hid⟩ := alloc_of_request order hc (mem_requests_ps (order := order) hni hp)
-  obtain ⟨id, k', h1, h2, h3⟩ := reusableNameId_of_mem (allow := false) hk (by simp; omega)
+  obtain ⟨k, hk, hid⟩ := alloc_of_request order (mem_requests_ps (order := order) hni hp)
+  obtain ⟨id, k', h1, h2, h3⟩ := reusableNameId_of_mem (allow := false) hk (by omega)
   refine ⟨id, k', h1, h2, h3, ?_⟩
-  rcases (reusableNameId_some h1).2 with h | h
-  · cases h
+  rcases (reusableNameId_some h1).2 with h | ⟨h, _⟩
   · exact h
+  · cases h
 
-theorem exist_inst {x : Input} (order : List NameKey) (hc : Clear x.names (allocTop x)) {ni : Inst}
-    (hni : ni ∈ effInsts x) :
+/-- `hn`, `hcover`: `names` is a `HashMap` (unique keys) and `order` visits every key. -/
+theorem exist_inst {x : Input} (order : List NameKey) (hn : (akeys x.names).Nodup)
+    (hcover : ∀ k ∈ akeys x.names, k ∈ order) {ni : Inst} (hni : ni ∈ effInsts x) :
     ∃ id k, reusableNameId (alloc order x) ni.name ni.atDefault = some id ∧ (k, ni.name) ∈ alloc order x ∧ k.id = id := by
   cases hr : reuseSubfamily order x.names ni with
   | false =>
-    obtain ⟨k, hk, hid⟩ := alloc_of_request order hc (mem_requests_name hni hr)
-    exact reusableNameId_of_mem hk (by simp; omega)
+    obtain ⟨k, hk, hid⟩ := alloc_of_request order (mem_requests_name hni hr)
+    exact reusableNameId_of_mem hk (by omega)
   | true =>
-    -- the instance is at the default location and a source record with id 2 or 17 carries its name
+    -- the instance is at the default location and the smallest source id carrying its name is 2 or 17:
+    -- it is also the smallest id in the final table, so fvar reuses it
     unfold reuseSubfamily at hr
     simp only [Bool.and_eq_true] at hr
     obtain ⟨hdef, hm⟩ := hr
     split at hm
-    · next id hf =>
-      obtain ⟨k, _, hk, hkid⟩ := firstMatch_some hf
-      have hsub : k.id ≤ 255 := by
-        simp [isSub] at hm; omega
-      have : (k, ni.name) ∈ alloc order x := by
+    · next m hf =>
+      obtain ⟨⟨k, _, hk, hkid⟩, hmin⟩ := smallestMatch_some hf
+      have hm17 : m ≤ 17 := by simp [isSub] at hm; omega
+      have hkT : (k, ni.name) ∈ alloc order x := by
         apply mem_of_alookup
-        rw [alloc_reserved_lookup order hsub]; exact hk
-      exact reusableNameId_of_mem this (by simp [hdef])
+        rw [alloc_reserved_lookup order (by omega)]; exact hk
+      have hhead : (reverseIds (alloc order x) ni.name).head? = some m := by
+        apply head_sortAsc_unique
+        · exact mem_idsOf.mpr ⟨k, hkT, hkid⟩
+        · intro id hid
+          obtain ⟨k', hk', e⟩ := mem_idsOf.mp hid
+          by_cases hres : k'.id ≤ 255
+          · have hsrc := alloc_reserved_from_source order hk' hres
+            have hl := alookup_of_mem_nodup hn hsrc
+            have ho := hcover k' (List.mem_map.mpr ⟨(k', ni.name), hsrc, rfl⟩)
+            rw [← e]; exact hmin k' ho hl
+          · omega
+      rw [hdef]
+      exact ⟨m, k, reusableNameId_of_head_sub hhead hm, hkT, hkid⟩
     · cases hm
-
-/-! ### reserved ids -/
-
-theorem inst_id_allowed {x : Input} (order : List NameKey) {ni : Inst}
-    (hclean : ni.atDefault = true → ∀ k, (k, ni.name) ∈ x.names → k.id ≤ 255 → isSub k.id = true)
-    {id : Nat} (h : reusableNameId (alloc order x) ni.name ni.atDefault = some id) :
-    256 ≤ id ∨ (ni.atDefault = true ∧ isSub id = true) := by
-  obtain ⟨⟨k, hk, hkid⟩, hallow⟩ := reusableNameId_some h
-  by_cases hge : 256 ≤ id
-  · exact Or.inl hge
-  · right
-    rcases hallow with hd | hd
-    · refine ⟨hd, ?_⟩
-      have hle : k.id ≤ 255 := by omega
-      rw [← hkid]
-      exact hclean hd k (alloc_reserved_from_source order hk hle) hle
-    · exact absurd hd hge
 
 /-! ### one id per string -/
 
@@ -165,13 +158,12 @@ theorem fresh_not_in_source {x : Input} (order : List NameKey) (hn : (akeys x.na
     rcases mem_extend h with h | h
     · exact absurd (List.mem_map.mpr ⟨(k, s), h, rfl⟩) nk
     · exact h
-  -- the initial map already knows `s`, under a source key
   have hk' : k' ∈ order := hcover k' (List.mem_map.mpr ⟨(k', s), hs, rfl⟩)
   have hinit := (isSome_initReusable (names := x.names) s order).mpr ⟨k', hk', alookup_of_mem_nodup hn hs, hid⟩
   cases hi : alookup s (initReusable order x.names) with
   | none => simp [hi] at hinit
   | some k'' =>
-    have hfin := alookup_foldl_register_mono (requests order x) ⟨initReusable order x.names, 255⟩ hi
+    have hfin := alookup_foldl_register_mono (requests order x) ⟨initReusable order x.names, maxId x.names⟩ hi
     rw [← allocState_eq] at hfin
     have := alookup_of_mem_nodup (allocState_nodup order x) m
     rw [hfin] at this
